@@ -46,6 +46,10 @@ CLAIMS = {
    text="Proof (Lean 4, record level): everything recovered lies below the next sequence/batch number, so commits after reopening are ordered after everything recovered (C07_recovered_below_next_partial); clean-up after recovery does not change what a second recovery rebuilds (C07_recover_after_cleanup). Reopen itself is exercised: every crash image and every clean close at level shapes produced by flush/compaction is opened, written to, closed and opened again with the real TreeBuilder; two genuine load-time defects (bogus manifest validations) found this way were repaired.",
    note="Trusted: as C02; the manifest validations are exercised, not modelled; reopening with a different option set and crashes inside recovery itself are not explored yet: partial.",
    technique="Lean 4 invariant proof (sequence floor, idempotent recovery) + reopen of crash/clean images on the real store", ref="DESIGN.md §6 C07"),
+ "C09": dict(
+   text="Proof (Lean 4, all sorted key lists and tombstone patterns): the forward positioning loop of the transaction range cursor lands on exactly the least live key >= the frontier of the write-set-over-snapshot overlay, in a state satisfying the forward invariant (C09_position_to_min), hence seek_first and seek(target) are exact (C09_seek_first, C09_seek). next / prev / seek_last and the direction-change prologue are validated, not proved: every generated cursor program (direction reversals at every position, bounds present/absent/empty/inverted, keys spread over write set, memtables and tables on several levels) is compared call by call with the executable model and with the list-cursor specification on the real stack. Four genuine defects found by this check were repaired.",
+   note="Trusted: Lean kernel + standard axioms; transcription of TransactionRangeIterator; the snapshot-side stack (SnapshotIterator, KMergeIterator, table and memtable cursors) is assumed to be a list cursor in the model and only exercised by the correspondence: partial.",
+   technique="Lean 4 refinement proof of the merge positioning loop + call-by-call differential correspondence of cursor programs", ref="DESIGN.md §6 C09"),
 }
 props = [json.loads(l) for l in open('/verif/properties.jsonl')]
 hooks = subprocess.run(["git", "-C", "/repo", "log", "--format=%h %s"], capture_output=True, text=True).stdout.splitlines()
